@@ -23,7 +23,7 @@ ASSUMPTIONS = ['base calls are only checked where every sensible likelihood agre
                'with identical quality multisets give N; one base dominating in count and in every quality gives that base',
                'the MD tag is parsed tolerantly (missing zero separators accepted): only its meaning is compared with the reference']
 MIN_NONTRIVIAL = {'quick': 150, 'thorough': 2500}
-REQUIRED_MONITORS = ['lib:reads_with_indel', 'ret:deduplicate_majority', 'reads:checked', 'reads:gapped', 'reads:reverse', 'bases:decidable_checked', 'bases:conflict_N_expected',
+REQUIRED_MONITORS = ['history:grown_molecules', 'lib:reads_with_indel', 'ret:deduplicate_majority', 'reads:checked', 'reads:gapped', 'reads:reverse', 'bases:decidable_checked', 'bases:conflict_N_expected',
                      'cli:consensus_reads_checked', 'split:max_N_span']
 SHARD_TIMEOUT = {'quick': 900, 'thorough': 5400}
 
@@ -249,6 +249,47 @@ def run_case(case):
                         acc.sigs.add(f"{case['i']}/{mi}/{max_n}")
                     if max_n is None and len(out) != 1:
                         acc.violate('consensus-read-count', f'{len(out)} consensus reads for one molecule without max_N_span', wit)
+            # ---- history: a molecule that grows between two consensus requests (also touching the cached per-base properties in between)
+            by_key = defaultdict(list)
+            for t in truths.values():
+                if t['valid'] and not t.get('single_end'):
+                    by_key[t['key']].append(t['id'])
+            grown = 0
+            segs = defaultdict(dict)
+            with pysam.AlignmentFile(bam) as f2:
+                for a in f2.fetch(until_eof=True):
+                    segs[F.id_from_name(a.query_name)]['r2' if a.is_read2 else 'r1'] = a
+            for key, ids in by_key.items():
+                if len(ids) < 2 or grown >= 6:
+                    continue
+                grown += 1
+                from singlecellmultiomics.universalBamTagger.universalBamTagger import QueryNameFlagger
+                qf = QueryNameFlagger()
+                m = None
+                wit = {'config': cfg, 'molecule_fragments': ids, 'history': 'consensus requested after every added fragment'}
+                try:
+                    for rid in ids:
+                        reads = [segs[rid].get('r1'), segs[rid].get('r2')]
+                        qf.digest(reads)
+                        frag = fclass(reads, umi_hamming_distance=0)
+                        if m is None:
+                            m = mclass(frag, reference=reference)
+                        else:
+                            m._add_fragment(frag)
+                        m.deduplicate_majority(f, 'grow')
+                        _ = m.base_confidences
+                    out = [x for x in m.deduplicate_majority(f, 'grown') if x is not None]
+                except Exception as ex:
+                    acc.violate('incremental-consensus-raised:' + type(ex).__name__, f'consensus on a growing molecule raised {ex!r}', wit)
+                    continue
+                acc.count('history:grown_molecules')
+                mol_recs = [rec for i in ids for rec in byid[i]]
+                t0 = truths[ids[0]]
+                tags = {'SM': t0['sample'], 'RX': t0['umi'], 'DS': t0['site'], 'TF': len(ids)}
+                before = len(acc.violations)
+                check_consensus_reads(acc, out, mol_recs, gen, t0['contig'], tags, 'api grown molecule', wit)
+                for v in acc.violations[before:]:
+                    v['mech'] = 'stale-after-growth:' + v['mech']
         # ------------------------------------------------------------------ CLI
         if case['i'] % 2 == 0:
             no_src = r.random() < 0.5
